@@ -502,3 +502,27 @@ package tree
 //@   call tree.newNNI [only_on_branches_whose_two_ends_have_three_neighbours] deg(a1) == 3 && deg(a2) == 3 && a1 == e.left && a2 == e.right && a0 == t
 //@   loop 1
 //@     step [two_moves_per_eligible_branch_none_otherwise_unless_stopped] (deg(e.left) == 3 && deg(e.right) == 3 ? ghost(fncalls_f) >= atHead(ghost(fncalls_f)) + 1 && ghost(fncalls_f) <= atHead(ghost(fncalls_f)) + 2 : ghost(fncalls_f) == atHead(ghost(fncalls_f)))
+
+// ---------------------------------------------------------------------------
+// GraftTipOnEdge (properties C16, C03): subdivide e by a fresh inner node w in
+// place (same slots on both ends), both halves get length/2, the tip hangs
+// from w by a fresh branch of length 1
+// ---------------------------------------------------------------------------
+
+//@ func (*tree.Tree).GraftTipOnEdge
+//@   requires t != nil && allocated(n) && allocated(e) && deg(n) == 0 && len(n.br) == 0 && allocated(e.left) && allocated(e.right) && e.left != e.right && n != e.left && n != e.right
+//@   requires INV() && ORI() && (forall m *Node, k int :: {m.neigh[k]} allocated(m) && 0 <= k && k < deg(m) ==> m.neigh[k] != n)
+//@   allocates Node, Edge, []*Node, []*Edge, []string, iface
+//@   assigns e.right, e.length, n.neigh, n.br, elems(n.neigh), elems(n.br), elems(e.left.neigh), elems(e.right.neigh), elems(e.right.br)
+//@   ensures [fresh_inner_node_with_three_neighbours_tip_upper_lower] result3 == nil ==> fresh(result2) && deg(result2) == 3 && len(result2.br) == 3 && result2.neigh[0] == n && result2.br[0] == result0 && result2.neigh[1] == old(e.left) && result2.br[1] == e && result2.neigh[2] == old(e.right) && result2.br[2] == result1
+//@   ensures [tip_branch] result3 == nil ==> fresh(result0) && result0.left == result2 && result0.right == n && result0.length == 1.0 && deg(n) == 1 && n.neigh[0] == result2 && n.br[0] == result0
+//@   ensures [upper_half_keeps_the_branch_object_and_half_the_length] result3 == nil ==> e.left == old(e.left) && e.right == result2 && e.length == old(e.length) / 2.0 && e.support == old(e.support)
+//@   ensures [lower_half_is_fresh_with_half_the_length] result3 == nil ==> fresh(result1) && result1.left == result2 && result1.right == old(e.right) && result1.length == old(e.length) / 2.0
+//@   ensures [same_slot_on_the_upper_end] result3 == nil ==> (forall k int :: {e.left.neigh[k]} 0 <= k && k < deg(e.left) ==> (old(e.left.br[k]) == e ? e.left.neigh[k] == result2 && e.left.br[k] == e : e.left.neigh[k] == old(e.left.neigh[k]) && e.left.br[k] == old(e.left.br[k])))
+//@   ensures [same_slot_on_the_lower_end] result3 == nil ==> (forall k int :: {old(e.right).neigh[k]} 0 <= k && k < deg(old(e.right)) ==> (old(old(e.right).br[k]) == e ? old(e.right).neigh[k] == result2 && old(e.right).br[k] == result1 : old(e.right).neigh[k] == old(old(e.right).neigh[k]) && old(e.right).br[k] == old(old(e.right).br[k])))
+//@   ensures [inv1] result3 == nil ==> INV1()
+//@   ensures [inv2] result3 == nil ==> INV2()
+//@   ensures [inv3] result3 == nil ==> INV3()
+//@   ensures [inv5] result3 == nil ==> INV5()
+//@   ensures [own] result3 == nil ==> OWN()
+//@   ensures [orientation] result3 == nil ==> ORI()
